@@ -17,7 +17,12 @@
      "tokens" : every sequence of token KINDS up to MaxLen (grammatical or not); term
                 slots are filled from a palette by a seeded hash, so that every
                 kind-combination is generated exactly once.
+     "pairs"  : every ordered pair of palette terms, joined by juxtaposition (AND), "or",
+                "then", or juxtaposition with the second one negated (class combinations at
+                the term level: long lists x flags, variables x variables, ...).
      "sim"    : tlc -simulate; random sequences of full tokens up to depth MaxLen.
+   Gram = TRUE restricts "tokens" and "sim" to viable prefixes of the grammar (every
+   sequence grammatical); FALSE enumerates every sequence (malformed structure).
    Every finished sequence is printed once as one JSON line ("@@J" prefix) together with
    the lexer-level token sequence the real lexer must produce for its canonical
    concretisation, whether it is grammatical, and DNFSize when it is.
@@ -559,7 +564,9 @@ Closure(s) == LET st == StateOf(s) IN
 
 Init == /\ seq = <<>>
         /\ done = FALSE
-        /\ hd \in (IF Mode = "value" THEN Headers(VK) ELSE {NoHdr})
+        /\ hd \in (IF Mode = "value" THEN Headers(VK)
+                   ELSE IF Mode = "pairs" THEN {[NoHdr EXCEPT !.key = c] : c \in {"and", "or", "then", "andnot"}}
+                   ELSE {NoHdr})
 
 KindOfItem(x) == IF Mode = "sim" THEN x.k ELSE x
 
@@ -567,14 +574,16 @@ Extend == /\ ~done
           /\ Len(seq) < MaxLen
           /\ \E x \in (CASE Mode = "value"  -> SymbolsAt(VK, Alpha, Len(seq) + 1)
                          [] Mode = "tokens" -> SeqToSet(Kinds)
+                         [] Mode = "pairs"  -> IF Len(seq) < 2 THEN SeqToSet(Palette) \cup SeqToSet(CtlPalette) ELSE {}
                          [] Mode = "sim"    -> SimAlphabet) :
-                /\ (Gram /\ Mode # "value") => StepOK(StateOf(seq), KindOfItem(x))
+                /\ (Gram /\ Mode \in {"tokens", "sim"}) => StepOK(StateOf(seq), KindOfItem(x))
                 /\ seq' = Append(seq, x)
           /\ UNCHANGED <<hd, done>>
 
 Finish == /\ ~done
           /\ Mode # "sim"
           /\ Mode = "value" => seq # <<>>
+          /\ Mode = "pairs" => Len(seq) = 2
           /\ (Gram /\ Mode = "tokens") => (seq # <<>> /\ LET st == StateOf(seq) IN ~st.need /\ st.depth = 0)
           /\ done' = TRUE
           /\ UNCHANGED <<seq, hd>>
@@ -584,6 +593,9 @@ Spec == Init /\ [][Next]_vars
 
 Tokens == CASE Mode = "value"  -> ValueTokens(hd, seq)
             [] Mode = "tokens" -> Fill(seq)
+            [] Mode = "pairs"  -> <<seq[1]>> \o (CASE hd.key = "and" -> <<>>
+                                                   [] hd.key = "andnot" -> <<Tok("neg")>>
+                                                   [] OTHER -> <<Tok(hd.key)>>) \o <<seq[2]>>
             [] Mode = "sim"    -> IF Gram THEN Closure(seq) ELSE seq
 
 Record ==
